@@ -894,10 +894,10 @@ void closeSession(Session &s) {
     std::vector<Aux> aux;
     std::vector<Ent> many;
     if (s.open) { json pre = observe(s); for (auto &x : pre["issues"]) { std::string m = x.get<std::string>(); if (m.rfind("before close: ", 0) != 0 && s.carried.size() < 10) s.carried.push_back("before close: " + m); }
-                  aux = collectAux(s); many = collectMany(s); }
+                  if (!getenv("VERIF_NO_AUX")) aux = collectAux(s); if (!getenv("VERIF_NO_MANY") && s.K == 0 && s.fresh.size() <= 8) many = collectMany(s); }     // (not on lines with ballast: see DESIGN section 8, "many handles + ballast")
     s.f.close(); s.open = false;
     size_t alive = 0;
-    for (auto &e : many) {
+    if (!getenv("VERIF_NO_POKE")) for (auto &e : many) {
         bool g = false, m = false;
         try { (void) e.id(); (void) e.name(); } catch (...) { g = true; }
         try { e.touch(); } catch (...) { m = true; }
@@ -1036,7 +1036,9 @@ json handleInner(Ctx &c, const json &rec);
 json handle(Ctx &c, const json &rec) {
     g_known.clear();
     g_ignoreHandles = c.opts.value("ignore_handles", false);
-    json r = handleInner(c, rec);
+    json r;
+    try { r = handleInner(c, rec); }
+    catch (...) { if (const char *keep = getenv("VERIF_KEEP_BAD")) { std::string cmd = std::string("cp '") + c.path("file.nix") + "' '" + keep + "/bad-" + std::to_string(getpid()) + "-" + std::to_string(time(nullptr)) + ".nix'"; if (system(cmd.c_str())) {} } throw; }
     if (!g_known.empty()) r["known"] = g_known;
     return r;
 }
@@ -1108,7 +1110,7 @@ json handleInner(Ctx &c, const json &rec) {
         }
         // no crash ahead: run the remaining prefix, then the judged step
         for (; i + 1 < all.size(); i++) {
-            std::string r = doStep(c, s, all[i], (long) i);
+            g_phase = "prefix step " + std::to_string(i) + " " + all[i]["a"].get<std::string>(); std::string r = doStep(c, s, all[i], (long) i);
             if (r != all[i]["res"].get<std::string>())
                 return json{{"v", "unjudgeable"}, {"what", "prefix step outcome differs"}, {"step", all[i]}, {"observed", r}};
             s.fresh.clear();              // fresh handles are looked up again on demand
@@ -1131,7 +1133,9 @@ json handleInner(Ctx &c, const json &rec) {
             i++;
             continue;
         }
+        g_phase = "step " + std::to_string(i) + " " + st["a"].get<std::string>();
         std::string r = doStep(c, s, st, (long) i);
+        g_phase = "after step " + std::to_string(i) + " " + st["a"].get<std::string>();
         json exp = normalise(rec["post"]);
         if (r != st["res"].get<std::string>()) {
             json obs = observe(s);
